@@ -16,6 +16,40 @@ thread_local! {
     static BYPASS: Cell<u32> = const { Cell::new(0) };
 }
 
+thread_local! {
+    /// While set, every call that reaches the global allocator on this thread
+    /// is counted (used to detect allocation / re-entry from inside a wrapper
+    /// call).
+    static WATCH: Cell<bool> = const { Cell::new(false) };
+    static WATCH_HITS: Cell<u32> = const { Cell::new(0) };
+}
+
+/// Runs `f` while counting global-allocator calls made by this thread.
+pub fn watch<R>(f: impl FnOnce() -> R) -> (R, u32) {
+    WATCH_HITS.with(|h| h.set(0));
+    WATCH.with(|w| w.set(true));
+    let r = f();
+    WATCH.with(|w| w.set(false));
+    (r, WATCH_HITS.with(|h| h.get()))
+}
+
+/// Suspends [`watch`] for harness-side bookkeeping inside a watched region.
+pub fn unwatched<R>(f: impl FnOnce() -> R) -> R {
+    let prev = WATCH.try_with(|w| w.replace(false)).unwrap_or(false);
+    let r = f();
+    let _ = WATCH.try_with(|w| w.set(prev));
+    r
+}
+
+#[inline]
+fn note_call() {
+    let _ = WATCH.try_with(|w| {
+        if w.get() {
+            let _ = WATCH_HITS.try_with(|h| h.set(h.get() + 1));
+        }
+    });
+}
+
 pub struct Outer {
     profiled: AllocProfiler<System>,
 }
@@ -67,6 +101,7 @@ pub fn profiled<R>(f: impl FnOnce() -> R) -> R {
 
 unsafe impl GlobalAlloc for Outer {
     unsafe fn alloc(&self, layout: Layout) -> *mut u8 {
+        note_call();
         if bypassed() {
             System.alloc(layout)
         } else {
@@ -75,6 +110,7 @@ unsafe impl GlobalAlloc for Outer {
     }
 
     unsafe fn alloc_zeroed(&self, layout: Layout) -> *mut u8 {
+        note_call();
         if bypassed() {
             System.alloc_zeroed(layout)
         } else {
@@ -83,6 +119,7 @@ unsafe impl GlobalAlloc for Outer {
     }
 
     unsafe fn realloc(&self, ptr: *mut u8, layout: Layout, new_size: usize) -> *mut u8 {
+        note_call();
         if bypassed() {
             System.realloc(ptr, layout, new_size)
         } else {
@@ -91,6 +128,7 @@ unsafe impl GlobalAlloc for Outer {
     }
 
     unsafe fn dealloc(&self, ptr: *mut u8, layout: Layout) {
+        note_call();
         if bypassed() {
             System.dealloc(ptr, layout)
         } else {
